@@ -18,15 +18,17 @@ import (
 // and then rejected, or decoded into a different coordinates type than it was built from.
 //
 // Slots (by shape, package geojson):
-//   E  emit table   — every composite literal of the struct type that has a string field Type and
-//                     an interface field Coordinates, with a constant Type: the Go type of the
-//                     Coordinates value (its static type, or the single type of the enclosing
-//                     type-switch clause when the value is the switched interface variable).
-//   D  decode table — the method UnmarshalJSON of that struct type: for each `case "X":` of its
-//                     switch over the type string, the Go type of the value stored into
-//                     Coordinates.
-//   U  dispatch     — the package function Unmarshal: the case strings of its switch whose body
-//                     decodes into a variable of that struct type.
+//
+//	E  emit table   — every composite literal of the struct type that has a string field Type and
+//	                  an interface field Coordinates, with a constant Type: the Go type of the
+//	                  Coordinates value (its static type, or the single type of the enclosing
+//	                  type-switch clause when the value is the switched interface variable).
+//	D  decode table — the method UnmarshalJSON of that struct type: for each `case "X":` of its
+//	                  switch over the type string, the Go type of the value stored into
+//	                  Coordinates.
+//	U  dispatch     — the package function Unmarshal: the case strings of its switch whose body
+//	                  decodes into a variable of that struct type.
+//
 // One obligation per kind name in E ∪ D ∪ U: present in all three tables, with the same Go type
 // in E and D. Informational: the coordinate types the importer's type switch
 // (ingest.(*AddFeatures).fillFromFeature) does not handle (those features are dropped).
@@ -311,17 +313,18 @@ func runGeoJSONTypes(c *Ctx) []Obligation {
 
 // LATLNG-ORDER (C32): GeoJSON positions are [longitude, latitude] while every s2/b6 constructor
 // takes (latitude, longitude). Two shape checks keep the two orders apart:
-//   #codec  — for each type whose MarshalJSON marshals a []float64{x.A, x.B} literal and whose
-//             UnmarshalJSON stores x.F = s[i]: the field stored from index i is the field written
-//             at index i, and the length test of the decoder equals the literal's length.
-//   #accepts — the same decoder returns an error only for the shape of its input: no branch that
-//             returns an error is conditioned on an ordered comparison of a decoded (non-constant)
-//             floating point number, because the encoder writes any finite number (the property's
-//             domain) and has no such test.
-//   #call   — at every call (packages geojson and ingest carry C32, other packages are
-//             informational) of a function with consecutive float64 parameters named lat… and
-//             lng…/lon…, an argument whose own name (last identifier or field) says "lat" is not
-//             passed for the longitude and vice versa. Arguments with neutral names are not judged.
+//
+//	#codec  — for each type whose MarshalJSON marshals a []float64{x.A, x.B} literal and whose
+//	          UnmarshalJSON stores x.F = s[i]: the field stored from index i is the field written
+//	          at index i, and the length test of the decoder equals the literal's length.
+//	#accepts — the same decoder returns an error only for the shape of its input: no branch that
+//	          returns an error is conditioned on an ordered comparison of a decoded (non-constant)
+//	          floating point number, because the encoder writes any finite number (the property's
+//	          domain) and has no such test.
+//	#call   — at every call (packages geojson and ingest carry C32, other packages are
+//	          informational) of a function with consecutive float64 parameters named lat… and
+//	          lng…/lon…, an argument whose own name (last identifier or field) says "lat" is not
+//	          passed for the longitude and vice versa. Arguments with neutral names are not judged.
 func init() {
 	register(&Rule{
 		Name:  "LATLNG-ORDER",
